@@ -414,6 +414,18 @@ func (v *Value) Compare(b *Value) (int, error) {
 	}
 }
 
+// equality as the == operator sees it: an unknown value is equal to nothing
+func (v *Value) Equals(b *Value) (bool, error) {
+	if v.Tag == ValueUnknown || b.Tag == ValueUnknown {
+		return false, nil
+	}
+	cmp, err := v.Compare(b)
+	if err != nil {
+		return false, err
+	}
+	return cmp == 0, nil
+}
+
 func (v *Value) Not() *Value {
 	var notValue Value
 	if v.isTruthy() {
